@@ -327,6 +327,20 @@ func (a *jwtAuthenticator) isCacheEnabled() bool {
 	return a.ttl == nil || (a.ttl != nil && *a.ttl > 0)
 }
 
+// earliestExpiry returns the point in time at which the first certificate of the given chain expires.
+// From then on, the chain is not valid anymore, even if the certificate of the key itself still is.
+func earliestExpiry(chain []*x509.Certificate) time.Time {
+	expiry := chain[0].NotAfter
+
+	for _, cert := range chain[1:] {
+		if cert.NotAfter.Before(expiry) {
+			expiry = cert.NotAfter
+		}
+	}
+
+	return expiry
+}
+
 func (a *jwtAuthenticator) getCacheTTL(key *jose.JSONWebKey) time.Duration {
 	// timeLeeway defines the default time deviation to ensure the cert of the JWK is still valid
 	// when used from cache
@@ -337,7 +351,7 @@ func (a *jwtAuthenticator) getCacheTTL(key *jose.JSONWebKey) time.Duration {
 	}
 
 	// a key whose certificate expires within the leeway is not cached at all
-	if len(key.Certificates) != 0 && key.Certificates[0].NotAfter.Unix()-time.Now().Unix()-timeLeeway <= 0 {
+	if len(key.Certificates) != 0 && earliestExpiry(key.Certificates).Unix()-time.Now().Unix()-timeLeeway <= 0 {
 		return 0
 	}
 
@@ -346,7 +360,7 @@ func (a *jwtAuthenticator) getCacheTTL(key *jose.JSONWebKey) time.Duration {
 	// if it is shorter than the ttl of the certificate
 	certTTL := x.IfThenElseExec(len(key.Certificates) != 0,
 		func() time.Duration {
-			expiresIn := key.Certificates[0].NotAfter.Unix() - time.Now().Unix() - timeLeeway
+			expiresIn := earliestExpiry(key.Certificates).Unix() - time.Now().Unix() - timeLeeway
 
 			return x.IfThenElse(expiresIn > 0, time.Duration(expiresIn)*time.Second, 0)
 		},
